@@ -2,7 +2,11 @@
 import wallet_checks
 from wallet_common import *
 
-MANIFEST_ENTRY = None   # set below when the check is registered
+MANIFEST_ENTRY = dict(
+    cat="model_checking", ref='DESIGN.md 4 C07', engine="wallet-tla",
+    text="TLC explores histories in which an adversary uses w1's foreign API (its own S1 slate relabelled as a reply against normal and late-locked contexts, build_coinbase naming every existing key, the wallet's own slate delivered to its own receive) interleaved with honest traffic, and checks ForeignOnlyAdds on the model; model counter-examples and a covering sample of behaviours are replayed on the real code and judged by ForeignOnlyAdds / ReceiveExactlyOnce / ReplyOwnDataOnly on observed states.",
+    technique="TLC model checking of spec/MCWallet.tla + TLC-generated behaviours replayed on the real code + TLC trace validation (spec/TraceWallet.tla)",
+    note=WALLET_NOTE)
 
 PARAMS = dict(quick_cfgs=['MC_C07_quick.cfg'], thorough_cfgs=['MC_C07.cfg'], quick_n=60, thorough_n=500,
               setup=STD_SETUP, assumptions=WALLET_ASSUME, extra_behaviours=[])
